@@ -510,7 +510,86 @@ static void op_meta(int argc, char** a)
 	if (raw != cb) free(raw); free(cb); free(dec); free(data); free(copy);
 }
 
+
+/* ---------- C05 ---------- */
+static void snap(void)
+{
+	sz_params* c = confparams_cpr;
+	if (!c || !exe_params) { printf("-|"); return; }
+	printf("%x,%x,%x,%x,%x,%x,", c->quantization_intervals, c->maxRangeRadius, c->accelerate_pw_rel_compression, c->withRegression, c->szMode, c->losslessCompressor);
+	uint64_t ab, pb, rb; memcpy(&ab, &c->absErrBound, 8); memcpy(&pb, &c->pw_relBoundRatio, 8); memcpy(&rb, &c->relBoundRatio, 8);
+	print_shex(c->gzipMode); printf(",%x,%x,%x,%x,%x,%" PRIx64 ",%" PRIx64 ",%" PRIx64 ",%x;%x,%x,%x,%x|", c->sampleDistance, fbits(c->predThreshold), c->protectValueRange, c->max_quant_intervals,
+	       c->errorBoundMode, ab, rb, pb, dataEndianType, exe_params->optQuantMode, exe_params->intvCapacity, exe_params->intvRadius, exe_params->SZ_SIZE_TYPE);
+}
+/* hist <cfg> <op/op/...> <observed op>
+ * ops: c:<ty>:<mode>:<abs bits>:<rel bits>:<pwr bits>:<dims>:<kind>:<seed>:<scale bits>   compress (stream kept)
+ *      d:<k> decompress stream k   m:<k> metadata query on stream k   f finalise and re-initialise with the same configuration
+ * after every op the configuration part of the globals and exe_params are printed; finally the observed compression is
+ * done and decompressed and the digests of its stream and reconstruction are printed. */
+#define MAXS 64
+static void op_hist(int argc, char** a)
+{
+	if (init_from_cfg(a[0]) != SZ_SCES) { printf("st=init-failed\n"); return; }
+	unsigned char* streams[MAXS]; size_t sizes[MAXS]; int types[MAXS]; size_t sdims[MAXS][5]; int ns = 0;
+	printf("snap="); snap();
+	char* list = strdup(a[1]); char* save1;
+	for (int pass = 0; pass < 2; pass++) {
+		char* tok0 = pass == 0 ? list : a[2];
+		for (char* t = strtok_r(tok0, "/", &save1); t; t = strtok_r(NULL, "/", &save1)) {
+			int executed = 1;
+			if (t[0] == 'c' || t[0] == 'C' || t[0] == 'k') {
+				int ty, mode = 0, kind; uint64_t ab = 0, rb = 0, pb = 0, seed, sb; char dims[128]; char name[32] = "";
+				if (t[0] == 'c') sscanf(t, "c:%x:%x:%" SCNx64 ":%" SCNx64 ":%" SCNx64 ":%127[^:]:%d:%" SCNx64 ":%" SCNx64, &ty, &mode, &ab, &rb, &pb, dims, &kind, &seed, &sb);
+				else if (t[0] == 'C') sscanf(t, "C:%x:%127[^:]:%d:%" SCNx64 ":%" SCNx64, &ty, dims, &kind, &seed, &sb);
+				else sscanf(t, "k:%31[^:]:%x:%127[^:]:%d:%" SCNx64 ":%" SCNx64, name, &ty, dims, &kind, &seed, &sb);
+				size_t r[5]; parse_dims(dims, r); size_t n = computeDataLength(r[0], r[1], r[2], r[3], r[4]);
+				char spec[256]; double off = (mode == PW_REL) ? 3.0 : 0.0; uint64_t ob; memcpy(&ob, &off, 8);
+				double sc; memcpy(&sc, &sb, 8); if (mode == PW_REL) { off = 3.0 * sc; memcpy(&ob, &off, 8); }
+				snprintf(spec, sizeof spec, "g:%d:%" PRIx64 ":%zx:%" PRIx64 ":%" PRIx64, kind, seed, n, sb, ob);
+				size_t nn; void* data = make_data(spec, ty, &nn);
+				double absb, rel, pwr; memcpy(&absb, &ab, 8); memcpy(&rel, &rb, 8); memcpy(&pwr, &pb, 8);
+				size_t os = 0; unsigned char* b; int cst = 0;
+				if (t[0] == 'c') b = SZ_compress_args(ty, data, &os, mode, absb, rel, pwr, r[0], r[1], r[2], r[3], r[4]);
+				else if (t[0] == 'C') b = SZ_compress(ty, data, &os, r[0], r[1], r[2], r[3], r[4]);
+				else b = SZ_compress_customize(name, NULL, ty, data, r[0], r[1], r[2], r[3], r[4], &os, &cst);
+				if (t[0] != 'c') { mode = confparams_cpr->errorBoundMode; absb = confparams_cpr->absErrBound; rel = confparams_cpr->relBoundRatio; }
+				if (pass == 1) {
+					uint64_t h = 1469598103934665603ULL; for (size_t i = 0; b && i < os; i++) { h ^= b[i]; h *= 1099511628211ULL; }
+					/* integer streams carry confparams_cpr->dmin (a leftover of the last double compression, never read back) in
+					 * bytes 24..31 of an unwrapped stream: smdig leaves those bytes out */
+					uint64_t hm = 1469598103934665603ULL; int wrapped = b && os > 4 ? is_lossless_compressed_data(b, os) != -1 : 1;
+					for (size_t i = 0; b && i < os; i++) { if (ty >= 2 && !wrapped && i >= 24 && i < 32) continue; hm ^= b[i]; hm *= 1099511628211ULL; }
+					printf(" out=%zx sdig=%" PRIx64 " smdig=%" PRIx64 " wrapped=%d", os, h, hm, wrapped); fflush(R);
+					if (getenv("SZV_DUMP") && b) { FILE* df = fopen(getenv("SZV_DUMP"), "wb"); if (df) { fwrite(b, 1, os, df); fclose(df); } }
+					void* dec = b ? SZ_decompress(ty, b, os, r[0], r[1], r[2], r[3], r[4]) : NULL;
+					uint64_t g = 1469598103934665603ULL; for (size_t i = 0; dec && i < nn * elem_size(ty); i++) { g ^= ((unsigned char*)dec)[i]; g *= 1099511628211ULL; }
+					double mn, mx; double e = effective_bound(ty, data, nn, mode, absb, rel, &mn, &mx); struct errstat st;
+					if (dec) err_stats(ty, data, dec, nn, e, mn, mx, &st);
+					printf(" dig=%" PRIx64 " viol=%zx", dec ? g : 0, dec ? st.viol : (size_t)-1);
+					if (dec) free(dec);
+				} else if (b && ns < MAXS) { streams[ns] = b; sizes[ns] = os; types[ns] = ty; memcpy(sdims[ns], r, sizeof r); ns++; b = NULL; }
+				if (b) free(b); free(data);
+			} else if (t[0] == 'd' && ns) {
+				int k = atoi(t + 2) % ns;
+				void* dec = SZ_decompress(types[k], streams[k], sizes[k], sdims[k][0], sdims[k][1], sdims[k][2], sdims[k][3], sdims[k][4]);
+				if (dec) free(dec);
+			} else if (t[0] == 'm' && ns) {
+				int k = atoi(t + 2) % ns;
+				if (sizes[k] > 60 && is_lossless_compressed_data(streams[k], sizes[k]) == -1) { sz_metadata* m = SZ_getMetadata(streams[k]); if (m) free(m); }
+				else executed = 0;
+			} else if (t[0] == 'f') {
+				if (init_from_cfg(a[0]) != SZ_SCES) { printf(" reinit-failed"); }
+			}
+			else executed = 0;
+			if (pass == 0) { if (!executed) printf("!"); snap(); }
+		}
+	}
+	printf("\n");
+	for (int i = 0; i < ns; i++) free(streams[i]);
+	free(list);
+}
+
 struct op more_ops[] = {
-	{"rt", op_rt}, {"rtr", op_rtr}, {"fdim", op_fdim}, {"huff", op_huff}, {"rw", op_rw}, {"tr", op_tr}, {"lz", op_lz}, {"conf", op_conf}, {"meta", op_meta}, {"sniff", op_sniff}, {"ep", op_ep},
+	{"rt", op_rt}, {"rtr", op_rtr}, {"fdim", op_fdim}, {"huff", op_huff}, {"rw", op_rw}, {"tr", op_tr}, {"lz", op_lz}, {"conf", op_conf}, {"meta", op_meta}, {"hist", op_hist}, {"sniff", op_sniff}, {"ep", op_ep},
 	{NULL, NULL}
 };
